@@ -14,10 +14,11 @@ claimed = {
  "C09": ("exploration", "3", "seeded simulation of 2-3 proxy instances over a simulated memberlist fabric and intra-proxy links; convergence oracle at quiescence and delivery probes against each instance's own tables"),
  "C10": ("fault_enumeration", "3", "seeded simulation of the real mux pool (yamux, providers, manager, sessions) over a simulated network with connection/session faults and shutdown at arbitrary points; limit, self-healing, permit accounting and closed-after-shutdown oracles"),
  "C11": ("exploration", "3", "seeded simulation with real gRPC over the mux pool; RPC outcome and serving session vs the registered live set at quiescent points"),
+ "C19": ("fault_enumeration", "3", "seeded TLS handshakes between the proxy's real TLS configurations and a harness peer with generated credentials, under simulated clock jumps and connection cuts/corruption; admission vs independent x509 verification at the simulated time"),
  "C20": ("exploration", "3", "seeded simulation of the stream handler with hostile stream-open metadata followed by well-formed streams; served-or-rejected, wedge (task waiting on a lock forever) and crash oracles"),
  "C08": ("exploration", "3", "seeded simulation with overlapping stream incarnations; crash, registry and leaked-task oracles"),
 }
-pending = {k: "check under construction in this round (simulation world not built yet); will be claimed once it runs" for k in ["C07","C19"]}
+pending = {k: "check under construction in this round (simulation world not built yet); will be claimed once it runs" for k in ["C07"]}
 NA = {
  "C12": "pure function of (message, namespace mapping): no schedule, clock, fault or interleaving for a simulator to own",
  "C13": "pure function of (message, mapping, static wiring): no schedule, clock or fault can change the outcome",
